@@ -134,13 +134,14 @@ ADDENDA = {
     "C02": "Added: remove_carriage_return_after_token keeps preprocessor lines on lines of their own (repo repair f4baa2a, bfix_removeCrAfter_preprocSafe with both hypotheses shown necessary); multiline_structure model follows the repo repairs (keepGuard), theorem bfix_multiStruct_remove_keeps_comments for all regions; line-structure and multi-line families' correspondence + defect search (comment / preprocessor line absorbs code) run inside this check.",
     "C03": "Added: token_prefix / token_suffix whole rules (52 rules: affix_analyze_spec, never fix, table facts); the case family no longer excludes extended identifiers (repo repair 42fe06d, bfull_case_extended_identifier_untouched) and its analysis can no longer raise a TypeError (repo repair 7698b24, C19.bfull_case_analysis_errors); whole-rule theorems for the token_indent family (bfull2_indent_layoutOnly for every token list, indent assignment and indent_size) with the whole-rule correspondence BFULL2 (787 k rule x file x option runs); B-full case family correspondence and search at the excluded points (extended identifiers, non-ASCII case pairs).",
     "C04": LAYER_P + "Theorems generic over the program table (one induction on fuel, inv_run): token-count bookkeeping of every call incl. exceptional exits (prog_call_length), no pop/insert => length unchanged (prog_call_length_noLen), and BY NAME the 18 functions outside that fragment (decide +kernel on the regenerated table). Values: prog_retag_exact and prog_call_values (for every table passing Chk.value every token keeps its text or carries the fixed text of some class, also on exceptional exits; the 26 functions outside the fragment by name), prog_call_link (a masked-table call that avoids `unmodelled` equals the full-table call) with the harness re-running every run on the masked tables (3 384 of 3 606 runs inside both fragments).",
-    "C05": LAYER_P + "The roles of every (file, re-layout) pair are therefore produced twice (real parser and translated productions) and compared; the interpreted find_next_token / is_next_token / object_value_is / assign_next_token* of the generated table are proved equal to the hand models / array specifications (symbolic execution of the generated bodies, tied by name), so the prims_* layout theorems are statements about the translated code; layout blindness is proved for straight-line productions (13 functions by name, prog_chain_layout_partial); the full statement C05.LayoutBlindCall (if / while / calls of other productions) is NOT proved, so the property is still decided per explored pair for them. set_token_indent is modelled and proved layout-blind (setIndent_layoutBlind).",
+    "C05": LAYER_P + "The roles of every (file, re-layout) pair are therefore produced twice (real parser and translated productions) and compared; the interpreted find_next_token / is_next_token / object_value_is / assign_next_token* of the generated table are proved equal to the hand models / array specifications (symbolic execution of the generated bodies, tied by name), so the prims_* layout theorems are statements about the translated code; layout blindness is proved for straight-line productions, chains with conditionals on is_next_token and detectors (26 functions of the generated table by name: prog_chain_layout_partial, prog_ifchain_layout_partial, prog_detect_layout_partial); the full statement C05.LayoutBlindCall (if / while / calls of other productions) is NOT proved, so the property is still decided per explored pair for them. set_token_indent is modelled and proved layout-blind (setIndent_layoutBlind).",
     "C06": "Added: for the 52 token_prefix / token_suffix rules the analysis is a function of the token list alone (bfull2_affix_frame, bfull2_affix_disable), checked against the real rules; one rule list object is checked, configured again with a subset disabled, cleared and checked again.",
     "C07": "Added: token_indent family whole rule: line count kept and the fixed file is the concatenation of consecutive pieces of which exactly the reported ones change (bfull2_indent_lineCount, bfull2_indent_pieces), for all inputs.",
     "C09": "Added: the whole token_indent family (102 rules) converges in one application for all inputs (bfull2_indent_converges); findings are identified by the base class of the culprit rule of the minimal non-converging rule set.",
-    "C10": "Added: token_indent family: the analysis of the file after Rule.fix is empty and the second fix is the identity, for every token list, indent assignment (None, negative) and indent_size, guards CsOk, VarOk (both proved for all 102 generated rule rows), StyleOk, UidOk (bfull2_indent_idem_all, bfull2_indent_second_fix_all, bfull2_ruleFix_eq; the between / unless variants via bfull2_pairing_order_equivariant: extract_start_end_indexes commutes with monotone renamings of positions); blank_line_below / blank_line_above whole file for style require_blank_line (below_idem, above_idem); other vertical-spacing rules at region level; the second-fix search is not applied under a --fix_only file that lists lines.",
+    "C10": "Added: token_indent family: the analysis of the file after Rule.fix is empty and the second fix is the identity, for every token list, indent assignment (None, negative) and indent_size, guards CsOk, VarOk (both proved for all 102 generated rule rows), StyleOk, UidOk (bfull2_indent_idem_all, bfull2_indent_second_fix_all, bfull2_ruleFix_eq; the between / unless variants via bfull2_pairing_order_equivariant: extract_start_end_indexes commutes with monotone renamings of positions); blank_line_below / blank_line_above / previous_line whole file for styles require_blank_line and no_blank_line (below_idem, above_idem, belowNo_idem, aboveNo_idem, previous_idem); other vertical-spacing rules at region level; the second-fix search is not applied under a --fix_only file that lists lines.",
+    "C12": "Added: an unknown severity name is a configuration error like an unknown rule (repo repair 3e490c4; unknown_severity_error, configured_severity_defined); names that rules hold without listing them as configurable are part of the global / group pools of the random stacks.",
     "C15": "Added: the process-wide state picture taken around every file covers module globals, class attributes and the mutable default arguments, keyword defaults and closure cells of every function and method of every vsg module.",
-    "C18": "Added (after the repo repairs 81358d6 / b6a24e5 the guards of nBeforeAndAfter_sliceExact, ifConditions_sliceExact and startingEnding_sliceExact are gone): 34 further extractors transcribed (47 of the 55 entry points rules use) with slice-exactness / recorded-line theorems or the exact guard plus a decide witness replayed on the real extractor (8 extractor defects found this way); every real extractor call of the instrumented runs (80 k per quick run) and 187 k synthetic calls are replayed through the Lean driver.",
+    "C18": "Added (after the repo repairs 81358d6 / b6a24e5 the guards of nBeforeAndAfter_sliceExact, ifConditions_sliceExact and startingEnding_sliceExact are gone): 41 further extractors transcribed (all 55 entry points rules use; Extract2 … 8), recorded-line theorems for the line-above / line-below families and interface elements, with slice-exactness / recorded-line theorems or the exact guard plus a decide witness replayed on the real extractor (8 extractor defects found this way); every real extractor call of the instrumented runs (80 k per quick run) and 187 k synthetic calls are replayed through the Lean driver.",
     "C19": LAYER_P + "Theorems: the interpreter's result is a value or one of the enumerated outcomes (prog_result_enumerated); the only raise sites of the regenerated table are utils.print_error_message and print_missing_error_message (by name, decide +kernel). Error origin: prog_error_origin with instances prog_no_classifyError / prog_no_indexError; by name, every ClassifyError of the generated productions comes out of those two functions and every IndexError out of 82 functions (467 cannot originate one). Totality of the productions is still decided by the crash/hang search (first-line syntax errors included; a crash while building the syntax message has an identity of its own).",
 }
 NOTE_OVERRIDE = {
